@@ -667,6 +667,11 @@ func plan(tier string, seed int64) []sup.Batch {
 	if nBig > 0 {
 		bs = append(bs, sup.Chunk("big", "round", nBig, 3, 1, map[string]any{"big": 1})...)
 	}
+	nConc := 32
+	if tier == "thorough" {
+		nConc = 640
+	}
+	bs = append(bs, sup.Chunk("conc", "conc", nConc, nConc/8, 16, nil)...)
 	return bs
 }
 
@@ -691,10 +696,12 @@ func main() {
 				runTamper(c, b)
 			case "names":
 				runNames(c, b)
+			case "conc":
+				runConc(c, b)
 			}
 		},
 		Finish: func(t *sup.Totals) string {
-			if t.Obs["roundtrips"] == 0 || t.Obs["tampered_reads"] < 1000 || t.Obs["namespace_steps"] == 0 || t.Obs["namespace_steps_compared_with_a_plain_twin"] == 0 {
+			if t.Obs["roundtrips"] == 0 || t.Obs["tampered_reads"] < 1000 || t.Obs["namespace_steps"] == 0 || t.Obs["namespace_steps_compared_with_a_plain_twin"] == 0 || t.Obs["conc_foreign_files_refused"] == 0 {
 				return "a monitor observed nothing"
 			}
 			return ""
